@@ -1,139 +1,137 @@
 /-
-  MdModel.Cli — decision table of `minidump-stackwalk`'s `main_result`
-  (minidump-stackwalk/src/main.rs:355-523): output-mode munging, the two validity tests,
-  writer selection and exit status. Everything below `process_minidump_with_options` and the
-  printers is *not* modelled here: a `Report` is a name for the bytes the library produces
-  (`ProcessState::print`, `print_brief`, `print_json(pretty)`, and the raw-dump printers), which
-  the engine `cli` computes in-process on the same file and options.
+  MdModel.Cli — line-protocol entry of engine `cli` (C20). The models live in
+    MdModel.CliTable  decision table over the six format flags × three input classes
+    MdModel.CliIo     `main` as a state machine over files, standard output and diagnostics
+    MdModel.CliOpts   command line ↦ ProcessorOptions / symbol supplier / interactive UI
+    MdModel.CliDump   the raw dump as a table of sections
+  requests (first field after `cli`):
+    `<flags> <input>`                      the decision table (as before)
+    `io …`                                 one run of `main` in a described world
+    `opts …`                               the processing plan
+    `dumpsecs …`                           the sections of `--dump`
 -/
-import MdModel.Prelude
+import MdModel.CliTable
+import MdModel.CliIo
+import MdModel.CliOpts
+import MdModel.CliDump
 namespace MdModel.Cli
 
-/-- the flags that take part in the decision (clap's `output-format` group + `--brief`/`--pretty`) -/
-structure Flags where
-  human : Bool
-  json : Bool
-  cyborg : Bool      -- `--cyborg <path>` given
-  dump : Bool
-  brief : Bool
-  pretty : Bool
-  deriving DecidableEq, Repr
+/-! ### `cli io <flags> v:<0|1> hm:<0|1> lu:<0|1> in:<class> cy:<id|-> out:<id|-> log:<id|-> so:<ok|full|closed|cap:N> lim:<N|-> fs:<id=kind;…|-> H:<pend>:<hex> J:<pend>:<hex> D:<pend>:<hex> M:<pend>:<hex>`
+    kinds: `file:<len>:<seed>` | `dir` | `nodir` | `full` | `null`; ids not listed are absent and creatable.
+    answer: `exit:<n> so:<len>:<fnv64> se:<diag+diag|-> f:<id>=<absent|nodir|dir|full|null|file:<len>:<fnv64>|log:<empty|nonempty>>;…`
+    (ids = those listed in `fs:` and the three path options, sorted; the `--log-file`, when it is not also
+    another option's path, is shown as `log:empty|nonempty` because the text of a logged line is not modelled) -/
 
-/-- what the file given as the minidump turns out to be -/
-inductive Input where
-  | unreadable      -- missing, a directory, empty, not a minidump: `Minidump::read_path` fails
-  | unprocessable   -- readable, but `process_minidump_with_options` returns an error
-  | ok
-  deriving DecidableEq, Repr
+def fnv64 (bs : Bytes) : UInt64 :=
+  bs.foldl (fun h b => (h ^^^ b.toUInt64) * 0x100000001b3) 0xcbf29ce484222325
 
-inductive Report where
-  | human | humanBrief | json | jsonPretty | dump | dumpBrief
-  deriving DecidableEq, Repr
+def hex16 (n : UInt64) : String :=
+  let ds := Nat.toDigits 16 n.toNat
+  String.ofList (List.replicate (16 - ds.length) '0' ++ ds)
 
-inductive Outcome where
-  | usage                                   -- clap rejects the command line (exit status 2)
-  | exit1                                   -- diagnostic, no report
-  | exit0 (primary cyborg : List Report)    -- reports written to the primary output / the cyborg file
-  deriving DecidableEq, Repr
+/-- deterministic filler for pre-existing files (the engine writes the same bytes) -/
+def filler (len seed : Nat) : Bytes :=
+  (List.range len).map fun i => UInt8.ofNat ((seed + i * 7 + i / 251) % 251)
 
-def b2n (b : Bool) : Nat := if b then 1 else 0
-
-/-- clap's `ArgGroup "output-format"`: at most one of the members may be given -/
-def groupCount (f : Flags) : Nat := b2n f.human + b2n f.json + b2n f.cyborg + b2n f.dump
-
-/-- main.rs:355-523, transcribed. -/
-def cli (f : Flags) (i : Input) : Outcome :=
-  if groupCount f > 1 then .usage else
-  let rawDump := f.dump
-  let json0 := f.json
-  let human0 := !json0 && !rawDump
-  -- "Cyborg is just desugarred to --json --human"
-  let human := if f.cyborg then true else human0
-  let json := if f.cyborg then true else json0
-  if f.pretty && !json then .exit1            -- "Humans must be hideous!"
-  else if f.brief && !(human || rawDump) then .exit1   -- "Robots cannot be brief!"
-  else
-    match i with
-    | .unreadable => .exit1                   -- "Error reading dump"
-    | _ =>
-      if rawDump then .exit0 [if f.brief then .dumpBrief else .dump] []
-      else
-        match i with
-        | .unprocessable => .exit1            -- "Error processing dump"
-        | _ =>
-          let h := if human then [if f.brief then Report.humanBrief else Report.human] else []
-          let j := if json then [if f.pretty then Report.jsonPretty else Report.json] else []
-          if f.cyborg then .exit0 h j else .exit0 (h ++ j) []
-
-/-! ### The documented behaviour, written independently from the option documentation
-    (`--help` text of each flag), as a table over the *mode*. -/
-
-inductive Mode where
-  | human | json | cyborg | dump
-  deriving DecidableEq, Repr
-
-/-- "Emit a human-readable report (the default)"; the four formats are mutually exclusive -/
-def modeOf (f : Flags) : Option Mode :=
-  match f.human, f.json, f.cyborg, f.dump with
-  | false, false, false, false => some .human
-  | true, false, false, false => some .human
-  | false, true, false, false => some .json
-  | false, false, true, false => some .cyborg
-  | false, false, false, true => some .dump
-  | _, _, _, _ => none
-
-def spec (f : Flags) (i : Input) : Outcome :=
-  match modeOf f with
-  | none => .usage
-  | some m =>
-    -- "Pretty-print --json output": only meaningful where JSON is produced
-    if f.pretty && !(m = .json || m = .cyborg) then .exit1
-    -- "Provide a briefer --human or --dump report": not for JSON alone
-    else if f.brief && m = .json then .exit1
-    else
-      match m, i with
-      | _, .unreadable => .exit1
-      | .dump, _ => .exit0 [if f.brief then .dumpBrief else .dump] []
-      | _, .unprocessable => .exit1
-      | .human, .ok => .exit0 [if f.brief then .humanBrief else .human] []
-      | .json, .ok => .exit0 [if f.pretty then .jsonPretty else .json] []
-      -- "Combine --human and --json … The --human output will be the 'primary' output"
-      | .cyborg, .ok => .exit0 [if f.brief then .humanBrief else .human]
-                               [if f.pretty then .jsonPretty else .json]
-
-/-! ### line protocol:  `cli <flags> <input>`   flags = subset of `hjcdbp` or `-`; input ∈ unreadable|unprocessable|ok
-    answer: `usage` | `exit1` | `exit0 primary:<r+r|-> cyborg:<r|->` -/
-
-def Report.name : Report → String
-  | .human => "human" | .humanBrief => "human-brief" | .json => "json"
-  | .jsonPretty => "json-pretty" | .dump => "dump" | .dumpBrief => "dump-brief"
-
-def Outcome.render : Outcome → String
-  | .usage => "usage"
-  | .exit1 => "exit1"
-  | .exit0 p c =>
-    let show' (rs : List Report) := if rs.isEmpty then "-" else "+".intercalate (rs.map Report.name)
-    s!"exit0 primary:{show' p} cyborg:{show' c}"
-
-def parseFlags (s : String) : Option Flags :=
-  if s == "-" then some ⟨false, false, false, false, false, false⟩
-  else if s.toList.all (fun c => "hjcdbp".toList.contains c) then
-    let has (c : Char) := s.toList.contains c
-    some ⟨has 'h', has 'j', has 'c', has 'd', has 'b', has 'p'⟩
-  else none
-
-def parseInput : String → Option Input
-  | "unreadable" => some .unreadable
-  | "unprocessable" => some .unprocessable
-  | "ok" => some .ok
+def parseEntry (kind : String) : Option Entry :=
+  match kind.splitOn ":" with
+  | ["dir"] => some .dir
+  | ["nodir"] => some (.absent false)
+  | ["full"] => some .full
+  | ["null"] => some .null
+  | ["file", len, seed] =>
+    match len.toNat?, seed.toNat? with
+    | some l, some s => some (.file (filler l s))
+    | _, _ => none
   | _ => none
+
+def parseFsSpec (s : String) : Option (List (Path × Entry)) :=
+  if s == "-" then some [] else
+  (Proto.pieces s ";").mapM fun item =>
+    match item.splitOn "=" with
+    | [id, kind] => (parseEntry kind).map fun e => (id, e)
+    | _ => none
+
+def parseRep (pre : String) (s : String) : Option Rep :=
+  match s.splitOn ":" with
+  | [p, pend, hx] =>
+    if p != pre then none else
+    match pend.toNat?, Proto.unhex hx with
+    | some n, some bs => some ⟨bs, n⟩
+    | _, _ => none
+  | _ => none
+
+def parseStdout (s : String) : Option Stdout :=
+  match s.splitOn ":" with
+  | ["ok"] => some ⟨[], [], none, .other⟩
+  | ["full"] => some ⟨[], [], some 0, .other⟩
+  | ["closed"] => some ⟨[], [], some 0, .brokenPipe⟩
+  | ["cap", n] => n.toNat?.map fun c => ⟨[], [], some c, .other⟩
+  | _ => none
+
+def optPath (pre s : String) : Option (Option Path) :=
+  match field? pre s with
+  | some "-" => some none
+  | some p => if p.isEmpty then none else some (some p)
+  | none => none
+
+def Diag.name : Diag → String
+  | .usage => "usage" | .ioError => "io-error" | .prettyInvalid => "pretty-invalid"
+  | .briefInvalid => "brief-invalid" | .readError => "read-error" | .processError => "process-error"
+  | .localDebuginfoError => "local-debuginfo-error" | .panicLogged => "panic"
+
+def Entry.render (isLog : Bool) : Entry → String
+  | .absent true => "absent"
+  | .absent false => "nodir"
+  | .dir => "dir"
+  | .full => "full"
+  | .null => "null"
+  | .file c =>
+    if isLog then (if c.isEmpty then "log:empty" else "log:nonempty")
+    else s!"file:{c.length}:{hex16 (fnv64 c)}"
+
+def insertSorted (x : String) : List String → List String
+  | [] => [x]
+  | y :: ys => if x < y then x :: y :: ys else if x == y then y :: ys else y :: insertSorted x ys
+
+def handleIo (args : List String) : String :=
+  match args with
+  | [fl, v, hm, lu, inp, cy, out, lg, so, lim, fsS, h, j, d, m] =>
+    match parseFlags fl, bit? "v:" v, bit? "hm:" hm, bit? "lu:" lu, (field? "in:" inp).bind parseInput, optPath "cy:" cy,
+          optPath "out:" out, optPath "log:" lg, (field? "so:" so).bind parseStdout, field? "lim:" lim,
+          (field? "fs:" fsS).bind parseFsSpec, parseRep "H" h, parseRep "J" j, parseRep "D" d, parseRep "M" m with
+    | some f, some voff, some hmd, some lun, some i, some cyP, some outP, some logP, some sout, some limS, some fsL,
+      some hr, some jr, some dr, some mr =>
+      let limit : Option (Option Nat) := if limS == "-" then some none else limS.toNat?.map some
+      match limit with
+      | none => "bad-op"
+      | some lim =>
+        -- `--cyborg` is given iff a path is given
+        if f.cyborg != cyP.isSome then "bad-op" else
+        let fs : Fs := {
+          entry := fun p => match fsL.find? (fun q => q.1 == p) with
+            | some (_, e) => e
+            | none => .absent true,
+          limit := fun _ => lim }
+        let cfg : Cfg := { flags := f, cyborgPath := cyP.getD "", helpMarkdown := hmd, outputFile := outP,
+                           logFile := logP, verboseOff := voff, localUnsupported := lun }
+        let reps : Reports := ⟨hr, hr, jr, jr, dr, dr, mr⟩
+        let w : World := ⟨fs, sout, []⟩
+        let r := run (fun _ => [0x45]) cfg i reps w
+        let ids := (fsL.map (·.1) ++ cyP.toList ++ outP.toList ++ logP.toList).foldl (fun acc x => insertSorted x acc) []
+        let showId (id : String) : String :=
+          let isLog := logP == some id && cyP != some id && outP != some id
+          id ++ "=" ++ (r.world.fs.entry id).render isLog
+        let se := if r.world.stderr.isEmpty then "-" else "+".intercalate (r.world.stderr.map Diag.name)
+        s!"exit:{r.exit} so:{r.world.stdout.out.length}:{hex16 (fnv64 r.world.stdout.out)} se:{se} f:{if ids.isEmpty then "-" else ";".intercalate (ids.map showId)}"
+    | _, _, _, _, _, _, _, _, _, _, _, _, _, _, _ => "bad-op"
+  | _ => "bad-op"
 
 def handle (_engine : String) (args : List String) : String :=
   match args with
-  | [fs, inp] =>
-    match parseFlags fs, parseInput inp with
-    | some f, some i => (cli f i).render
-    | _, _ => "bad-op"
-  | _ => "bad-op"
+  | "io" :: rest => handleIo rest
+  | "opts" :: rest => handleOpts rest
+  | "dumpsecs" :: rest => handleDump rest
+  | _ => handleTab args
 
 end MdModel.Cli
